@@ -117,5 +117,16 @@ def run(argv):
         good = not missing
         print('%-28s every action taken at least once: %s %s' % ('coverage/' + module, 'OK' if good else 'NEVER TAKEN', missing))
         ok &= good
+    # ---- design-level models beyond the listed properties (not bound to the implementation)
+    r = tlc('SidCache', 'SidCache.cfg', workers=4, timeout=600)
+    good = ('No error has been found' in r.out)
+    print('%-28s safety (NeverInvented, FileNeverInvented) and liveness (WarmupEnds, LockNotForever) hold, %d states: %s'
+          % ('design/SidCache', r.distinct, 'OK' if good else 'FAILED'))
+    ok &= good
+    r = tlc('SidCache', 'SidCache_negative.cfg', workers=4, timeout=600)
+    good = r.violation and 'CreatedNotLost' in r.out
+    print('%-28s the claim "a created entry cannot be lost" is refuted by TLC (warm-up in flight replaces the file): %s'
+          % ('design/SidCache (negative)', 'OK' if good else 'NOT REFUTED'))
+    ok &= good
     print('SELFTEST', 'PASSED' if ok else 'FAILED')
     return 0 if ok else 1
